@@ -366,6 +366,7 @@ def judge(ctx, spec, nspec, style, seeds):
     for k, (os_, us) in enumerate(seeds):
         s2 = variant(spec, os_, us)
         m2 = H.model_of(s2)
+        H.prior_partial_use(ctx, m2, text, 3 if (os_ + us) % 2 else 2)
         try:
             load = m2.load_fn()
         except Exception:
